@@ -496,6 +496,10 @@ class AstToDjangoQVisitor(visitor.NodeVisitor):
         if isinstance(node, (Q, Exists)):
             return node
 
+        if isinstance(node, (F, Value)):
+            # A bare field or literal is not a condition Django can filter on:
+            raise ex.TypeException("filter", str(node))
+
         if not DJANGO_LT_4:
             return Q(node)
 
